@@ -287,13 +287,12 @@ Qed.
 
 Theorem equiv_spec rs content notbol noteol :
   ~ In 0 content -> ~ In 10 content -> ~ In 10 (r_str rs) ->
-  r_lend rs && noteol = false ->
   rstr_find rs (content ++ [10]) notbol noteol = spec_res (spat_of rs) (r_icase rs) notbol content.
 Proof.
-  intros Hz H10 Hl10 Hne.
+  intros Hz H10 Hl10.
   set (L := content ++ [10]). set (n := length content). set (len := length (r_str rs)).
   assert (HL : length L = S n) by (unfold L, n; rewrite app_length; cbn; lia).
-  unfold rstr_find, spec_res, spec_find. fold L. fold n. rewrite Hne, orb_false_r.
+  unfold rstr_find, spec_res, spec_find. fold L. fold n.
   cbn [spat_of p_lit]. fold len.
   assert (Hn10 : forall j, (j <= n)%nat -> (nth j L 0 =? 10) = (j =? n)%nat).
   { intros j Hj. unfold L, n. apply nth_line_10; assumption. }
@@ -357,13 +356,6 @@ Proof.
     + exfalso. apply Hout. unfold e. lia.
 Qed.
 
-(* with $ and NOTEOL the fast path gives up although the line end is before the newline *)
-Lemma noteol_refuted : exists rs content,
-  rstr_simple false [97; 36] = Some rs /\
-  rstr_find rs (content ++ [10]) false true = NotFound /\
-  spec_res (spat_of rs) false false content = Found 0 1.
-Proof. eexists; exists [97]. vm_compute. repeat split; reflexivity. Qed.
-
 (* groups *)
 Lemma groups_unset n so eo i : (1 <= i < n)%nat -> nth i (rstr_groups n so eo) (0, 0)%Z = ((-1)%Z, (-1)%Z).
 Proof.
@@ -378,20 +370,17 @@ Lemma in_bounds rs content notbol noteol :
   ~ In 0 content -> ~ In 10 content -> ~ In 10 (r_str rs) ->
   rstr_find rs (content ++ [10]) notbol noteol <> OOB.
 Proof.
-  intros Hz H10 Hl. destruct (r_lend rs && noteol) eqn:E.
-  - unfold rstr_find. rewrite E, orb_true_r. discriminate.
-  - rewrite (equiv_spec rs content notbol noteol Hz H10 Hl E). unfold spec_res.
-    destruct (spec_find _ _ _ _); discriminate.
+  intros Hz H10 Hl. rewrite (equiv_spec rs content notbol noteol Hz H10 Hl). unfold spec_res.
+  destruct (spec_find _ _ _ _); discriminate.
 Qed.
 
 (* the theorem in terms of the pattern string *)
 Theorem equiv_spec_pat ic p rs content notbol noteol :
   rstr_simple ic p = Some rs ->
   ~ In 0 content -> ~ In 10 content -> ~ In 10 p ->
-  r_lend rs && noteol = false ->
   rstr_find rs (content ++ [10]) notbol noteol = spec_res (spat_of rs) ic notbol content.
 Proof.
-  intros Hs Hz H10 Hp Hne. destruct (rstr_simple_sound _ _ _ Hs) as (Ep & _ & Eic).
+  intros Hs Hz H10 Hp. destruct (rstr_simple_sound _ _ _ Hs) as (Ep & _ & Eic).
   rewrite <- Eic. apply equiv_spec; try assumption.
   intro Hin. apply Hp. rewrite Ep. unfold spat_string, spat_of. cbn [p_lit].
   apply in_or_app; right. apply in_or_app; right. apply in_or_app; left. exact Hin.
